@@ -301,7 +301,15 @@ func c20Histories(tier string, pathsPerModel int, depth int) []c20history {
 
 // HelperFingerprints is run in sub-processes: prints "name<TAB>fingerprint" for every history.
 func HelperFingerprints(tier string, pathsPerModel, depth int) {
-	for _, h := range c20Histories(tier, pathsPerModel, depth) {
+	hs := c20Histories(tier, pathsPerModel, depth)
+	if os.Getenv("VERIF_C20_REVERSE") != "" {
+		// what an execution has seen before differs from the forward order: every history is preceded by the ones that
+		// follow it in the list
+		for i, j := 0, len(hs)-1; i < j; i, j = i+1, j-1 {
+			hs[i], hs[j] = hs[j], hs[i]
+		}
+	}
+	for _, h := range hs {
 		fp, err := h.Run()
 		if err != nil {
 			fp = "ERROR:" + err.Error()
@@ -360,6 +368,7 @@ func CheckC20(tier string) int {
 		env  []string
 	}{
 		{"fresh-process", nil},
+		{"fresh-process-histories-in-reverse-order", []string{"VERIF_C20_REVERSE=1"}},
 		{"GOMAXPROCS=1", []string{"GOMAXPROCS=1"}},
 		{"GOMAXPROCS=16", []string{"GOMAXPROCS=16"}},
 		{"TMPDIR-does-not-exist", []string{"TMPDIR=/nonexistent-verif-tmpdir/x"}},
@@ -402,7 +411,7 @@ func CheckC20(tier string) int {
 	}
 	cov := map[string]any{
 		"states": len(hs), "transitions": runs, "traces_validated_against_impl": runs,
-		"histories": len(hs), "executions": runs, "distinct_fingerprints": len(distinct), "in_process_repetitions": reps, "environments": []string{"same process (forward and reversed order)", "fresh process", "GOMAXPROCS=1", "GOMAXPROCS=16", "TMPDIR pointing to a directory that does not exist"},
+		"histories": len(hs), "executions": runs, "distinct_fingerprints": len(distinct), "in_process_repetitions": reps, "environments": []string{"same process (forward and reversed order)", "fresh process", "fresh process with the histories in reverse order", "GOMAXPROCS=1", "GOMAXPROCS=16", "TMPDIR pointing to a directory that does not exist"},
 		"samples": samples, "exhaustive": false,
 		"explanation": "histories x environments are enumerated completely; Go's per-loop random map-iteration start cannot be enumerated and is sampled by the repetitions",
 	}
